@@ -27,7 +27,8 @@ const (
 
 type poolEntry struct {
 	Kind     int
-	Parsable bool
+	Parsable bool // every certificate of the entry is well-formed
+	LeafBad  bool // the certificate / TBSCertificate inside leaf_input is damaged (what ct.LogEntryFromLeaf parses)
 	Entry    rfc6962.Entry
 	Extra    []byte // extra_data, structurally well-formed
 	Cert     []byte // the bytes a client calls "the certificate" of the entry: ASN.1Cert of an X.509 entry, the submitted precertificate of a precert entry
@@ -73,11 +74,12 @@ func member(i int) *poolEntry {
 				g = append(append([]byte{}, e.Entry.Cert[:len(e.Entry.Cert)-19]...), tagBytes...) // truncated real certificate
 			}
 			e.Entry = rfc6962.Entry{Type: rfc6962.X509Entry, Cert: g}
-			e.Cert = g
+			e.Cert, e.LeafBad = g, true
 		case kindPrecert:
 			switch (i / 6) % 3 {
 			case 0: // TBSCertificate in the leaf is garbage, submitted precertificate intact
 				e.Entry = rfc6962.Entry{Type: rfc6962.PrecertEntry, TBS: append([]byte{0x30, 0x82, 0xff}, tagBytes...), IssuerKeyHash: e.Entry.IssuerKeyHash}
+				e.LeafBad = true
 			case 1: // the submitted precertificate inside extra_data is garbage
 				g := append([]byte("garbage precert "), tagBytes...)
 				x, err := rfc6962.EncodePrecertChainEntry(g, b.Full[1:])
@@ -93,6 +95,7 @@ func member(i int) *poolEntry {
 				}
 				e.Extra, e.Cert = x, g
 				e.Entry = rfc6962.Entry{Type: rfc6962.PrecertEntry, TBS: append([]byte{0x04, 0x03, 1, 2, 3}, tagBytes...), IssuerKeyHash: sha256.Sum256([]byte(fmt.Sprint("issuer", i)))}
+				e.LeafBad = true
 			}
 		}
 	}
@@ -105,6 +108,7 @@ type truth struct {
 	Member   int
 	Kind     int
 	Parsable bool
+	LeafBad  bool
 	Leaf     []byte // leaf_input
 	Extra    []byte // extra_data
 	Cert     []byte
@@ -133,7 +137,7 @@ func buildSource(n, seed, dupMod int, sameTS bool) []truth {
 		if err != nil {
 			panic(err)
 		}
-		out[i] = truth{Member: m, Kind: pe.Kind, Parsable: pe.Parsable, Leaf: leaf, Extra: pe.Extra, Cert: pe.Cert}
+		out[i] = truth{Member: m, Kind: pe.Kind, Parsable: pe.Parsable, LeafBad: pe.LeafBad, Leaf: leaf, Extra: pe.Extra, Cert: pe.Cert}
 	}
 	return out
 }
